@@ -45,7 +45,10 @@ MIRIFLAGS="$TB" cargo +nightly miri run --offline --bin sb_repro > ../run/miri.s
 SBTB_RC=$?
 MIRIFLAGS="$TB" cargo +nightly miri run --offline --bin tw-harness-miri -- packer /dev/null /dev/null > /dev/null 2>&1
 for d in $DOMS; do
-  ( MIRIFLAGS="$TB" cargo +nightly miri run --offline --bin tw-harness-miri -- $d ../run/miri.$d.req ../run/miri.$d.model > ../run/miri.$d.log 2>&1
+  # Miri deliberately returns short reads from files; the `buffer` model assumes that a regular file
+  # delivers what is asked for and left (as the kernel does), so that run switches the short reads off
+  X=""; [ "$d" = buffer ] && X=" -Zmiri-no-short-fd-operations"
+  ( MIRIFLAGS="$TB$X" cargo +nightly miri run --offline --bin tw-harness-miri -- $d ../run/miri.$d.req ../run/miri.$d.model > ../run/miri.$d.log 2>&1
     echo "EXIT $?" >> ../run/miri.$d.log ) &
 done
 # the aliasing verdict of the default model (Stacked Borrows) on a minimal safe client
